@@ -6,6 +6,8 @@ use std::io::{self, BufRead, Write};
 mod ops;
 mod shapes;
 mod heavy;
+mod ops_svgw;
+mod ops_pathmut;
 
 pub struct Rd<'a> {
     pub t: Vec<&'a str>,
@@ -206,7 +208,13 @@ fn run_line(line: &str) -> String {
     let mut rd = Rd { t: toks[1..].to_vec(), i: 0 };
     let r = match ops::run(op, &mut rd) {
         None => match shapes::run(op, &mut rd) {
-            None => heavy::run(op, &mut rd),
+            None => match heavy::run(op, &mut rd) {
+                None => match ops_svgw::run(op, &mut rd) {
+                    None => ops_pathmut::run(op, &mut rd),
+                    x => x,
+                },
+                x => x,
+            },
             x => x,
         },
         x => x,
